@@ -31,12 +31,21 @@ TECHNIQUE = 'deterministic simulation: seeded scheduling of several interpreters
 
 
 class Recorder:
+    """recording callable; an *active* one detaches a target of some sender when it receives its n-th event,
+    i.e. possibly while that sender is in the middle of dispatching a sent event to its targets"""
+
     def __init__(self, name, glog):
         self.name = name
         self.glog = glog
+        self.count = 0
+        self.plan = None        # (n, sender index, key of the target to detach)
+        self.act = None         # callback performing the planned detach on the real interpreters
 
     def __call__(self, event):
         self.glog.append((self.name, type(event).__name__, event.name, tuple(sorted((k, repr(v)) for k, v in event.data.items()))))
+        self.count += 1
+        if self.plan is not None and self.count == self.plan[0]:
+            self.act(self.plan[1], self.plan[2])
 
 
 def run(ch, tier):
@@ -58,6 +67,19 @@ def run(ch, tier):
     glog = []
     calls = [Recorder('c%d' % j, glog) for j in range(ncall)]
     bound = {i: [] for i in range(nint)}       # sender -> ordered list of (target key, listener)
+
+    def detach_now(snd, key):
+        for k, l in list(bound[snd]):
+            if k == key:
+                bound[snd].remove((k, l))
+                sims[snd].it.detach(l)
+                hist.append(('detach-from-callback', 'i%d' % snd, key))
+                res.stats['detach_during_dispatch_or_callback'] += 1
+    for c_ in calls:
+        c_.act = detach_now
+        if cs.flag(1, 2):
+            snd = cs.choice(nint)
+            c_.plan = (cs.int(1, 3), snd, cs.pick(['i%d' % j for j in range(nint)] + ['c%d' % j for j in range(ncall)]))
     events_by_chart = [sorted({t.event for t in s.sp.trans if t.event}) or ['ea'] for s in sims]
     hist = []
     cfp = fp(tuple(s.sp.fingerprint() for s in sims))
@@ -76,6 +98,8 @@ def run(ch, tier):
         truth = sim.draw_truth(gs, 5, 8)
         mark = len(glog)
         targets = list(bound[i])
+        mb = {k: list(v) for k, v in bound.items()}        # model of the bindings, evolves as active callables detach
+        mc = {c_.name: c_.count for c_ in calls}
         r = sim.step(truth)
         res.stats['steps'] += 1
         hist.append(('step', 'i%d' % i, r.ms and [repr(e) for e in r.ms.sent_events]))
@@ -115,13 +139,21 @@ def run(ch, tier):
             return res.fail('sent-list-differs', 'MacroStep lists sent uids %s, the code sent %s' % ([e.data.get('uid') for e in sent], code_sends), **ctx())
         want = []
         for e in sent:
-            for key, _ in targets:
+            for key, lst in list(mb[i]):
+                if (key, lst) not in mb[i]:
+                    continue        # detached by a callable earlier in this very dispatch: nothing is delivered after detach
                 if key.startswith('c'):
                     want.append((key, 'Event', e.name, tuple(sorted((k, repr(v)) for k, v in e.data.items()))))
+                    c_ = calls[int(key[1:])]
+                    mc[c_.name] += 1
+                    if c_.plan is not None and mc[c_.name] == c_.plan[0]:
+                        mb[c_.plan[1]] = [(k, l) for k, l in mb[c_.plan[1]] if k != c_.plan[2]]
                 else:
                     j = int(key[1:])
                     d = e.data.get('delay')
                     sims[j].expect_external(e.data.get('uid'), e.name, sims[j].lastT + (F(d) if d is not None else 0))
+        if {k: [x for x, _ in v] for k, v in mb.items()} != {k: [x for x, _ in v] for k, v in bound.items()}:
+            raise RuntimeError('harness: binding model out of sync')
         got = glog[mark:]
         if got != want:
             k = next((k for k, (x, y) in enumerate(zip(got, want)) if x != y), min(len(got), len(want)))
